@@ -185,6 +185,63 @@ def codec_dispatch(ctx, repo):
                        f"{name} decodes to {T.show(r)[:160]}, not to {what}", disc=f"dec|{name}")
 
 
+def flow_dataflow(ctx, repo, c, sv, ld):
+    """C13.flow (dataflow part): on save the data transform (when there is one), the
+    configuration and every weight array are written; on load the data transform is
+    re-attached exactly when the file has one, the object is built from the stored
+    configuration, the stored arrays are installed in it, and that object is returned."""
+    def has(t, pred):
+        return any(pred(x) for x in T.subterms(t))
+    ev = Evaluator(repo, max_depth=0)
+    ev.run(sv, c)
+    mine = [e for e in ev.events if e.func is sv]
+    dts = [e for e in mine if e.callee == "method:save" and len(e.args) >= 3 and e.args[2] == T.K("data_transform")]
+    ok1 = len(dts) == 1 and dts[0].args[0][0] == "f" and dts[0].args[0][1] == "method:pop" and dts[0].args[0][2][1] == T.K("data_transform") \
+        and [(cc, pp) for cc, pp in dts[0].conds] == [(("not", ("is", dts[0].args[0], T.NONE)), True)]
+    ctx.decide(ok1, "C13.flow", f"{c.ident}", loc_of(sv, dts[0].node if dts else None), "save writes the data transform whenever the flow has one",
+               "save does not write the flow's data transform exactly when it has one: the reloaded flow evaluates densities without (or with another) rescaling", disc="save|data_transform")
+    cfgs = [e for e in mine if e.callee.endswith("recursively_save_to_h5_file") and not e.conds and len(e.args) >= 3 and e.args[1] == T.K("config")
+            and has(e.args[2], lambda x: x[0] == "f" and x[1].endswith("config_dict"))]
+    ctx.decide(len(cfgs) == 1, "C13.flow", f"{c.ident}", loc_of(sv), "save writes the flow's configuration", "save does not write the configuration returned by config_dict()", disc="save|config")
+    wts = [e for e in mine if e.callee == "method:create_dataset" and has(dict(e.kwargs).get("data", T.NONE), lambda x: x[0] == "f" and x[1] == "elem")
+           and has(dict(e.kwargs).get("data", T.NONE), lambda x: x == ("attr", SELF, "_flow"))]
+    in_loop = [e for e in wts if any(lp["node"].lineno <= e.node.lineno <= lp["node"].end_lineno for lp in ev.loops)]
+    ctx.decide(len(in_loop) == 1 and not in_loop[0].conds, "C13.flow", f"{c.ident}", loc_of(sv), "save writes one dataset per weight array of the wrapped flow",
+               "save does not write every weight array of self._flow", disc="save|weights")
+    ev2 = Evaluator(repo, max_depth=0)
+    ret = T.strip_raise(ev2.run(ld, c))
+    mine = [e for e in ev2.events if e.func is ld]
+    grp = None
+    lds = [e for e in mine if e.callee.endswith("BaseTransform.load") and len(e.args) >= 2 and e.args[-1] == T.K("data_transform") or
+           (e.callee.endswith("BaseTransform.load") and T.K("data_transform") in e.args)]
+    sets = [e for e in mine if e.callee == "setitem" and e.args[1] == T.K("data_transform")]
+    ok2 = False
+    if len(lds) == 1 and len(sets) == 1:
+        grp = [a for a in lds[0].args if a[0] == "s"][0] if any(a[0] == "s" for a in lds[0].args) else None
+        want = [(("in", T.K("data_transform"), grp), True)]
+        ok2 = grp is not None and list(lds[0].conds) == want and list(sets[0].conds) == want and sets[0].args[2] == lds[0].result \
+            and has(sets[0].args[0], lambda x: x[0] == "f" and x[1].endswith("load_from_h5_file"))
+    ctx.decide(ok2, "C13.flow", f"{c.ident}", loc_of(ld, lds[0].node if lds else None), "load re-attaches the stored data transform exactly when the file has one",
+               "load does not put the stored data transform into the configuration exactly when the file has one", disc="load|data_transform")
+    news = [e for e in mine if e.callee == f"new:{c.ident}"]
+    ok3 = len(news) == 1 and not news[0].conds and not news[0].args and [k for k, _ in news[0].kwargs] == ["**"] \
+        and has(dict(news[0].kwargs)["**"], lambda x: x[0] == "f" and x[1].endswith("load_from_h5_file")) and (not sets or has(dict(news[0].kwargs)["**"], lambda x: x == sets[0].result))
+    ctx.decide(ok3, "C13.flow", f"{c.ident}", loc_of(ld, news[0].node if news else None), "load builds the object from the stored configuration (with the data transform attached)",
+               "load does not construct the flow from the stored configuration", disc="load|construct")
+    obj = news[0].result if news else None
+    inst = False
+    if obj is not None and grp is not None:
+        from_file = lambda t: has(t, lambda x: x[0] == "s" and x[1] == grp and x[2][0] == "k")  # noqa: E731
+        for e in mine:
+            if e.callee == "method:load_state_dict" and e.args and e.args[0] == ("attr", obj, "_flow") and not e.conds and len(e.args) > 1 and from_file(e.args[1]):
+                inst = True
+        fv = ev2.heap.get((obj, "_flow"))
+        if fv is not None and fv[0] != "phi" and from_file(fv):
+            inst = True
+    ctx.decide(inst and ret == obj, "C13.flow", f"{c.ident}", loc_of(ld), "load installs the stored weight arrays in the object it built and returns that object",
+               "load does not install the arrays stored in the file in the object it returns: the reloaded flow has freshly initialised weights", disc="load|weights")
+
+
 def run(ctx):
     repo = ctx.repo
     um = repo.module(U)
@@ -279,6 +336,32 @@ def run(ctx):
     sets_ = {n.slice.value for n in walk_no_nested(ld.node) if isinstance(n, ast.Subscript) and isinstance(n.ctx, ast.Store) and isinstance(n.slice, ast.Constant)}
     ctx.decide(pops == {"sample_history"} and "sample_history" in sets_, "C13.history", f"{sv.ident}/{ld.ident}", loc_of(ld),
                "the series saved apart (sample_history) is the one re-attached on load", f"saved apart: {sorted(pops)}, re-attached: {sorted(sets_)}", disc="series")
+    # value-based: what the loader hands to the constructor (per concrete history class)
+    for HC in [H] + [c for c in repo.subclasses(repo.cls("aspire.history:History"), strict=True) if c is not H]:
+        ldc = HC.resolve("load")
+        evh = Evaluator(repo, max_depth=0)
+        evh.run(ldc, HC)
+        newh = [e for e in evh.events if e.callee == f"new:{HC.ident}"]
+        okh, whyh = False, f"load does not construct exactly one {HC.name}"
+        attach_needed = HC is H
+        if len(newh) == 1:
+            sp_ = dict(newh[0].kwargs).get("**")
+            names = tuple(sorted((T.K(f.name) for f in HC.fields()), key=repr))
+            whyh = f"the constructor receives {T.show(sp_)[:160] if sp_ else sorted(dict(newh[0].kwargs))}"
+            if sp_ is not None and sp_[0] == "f" and sp_[1] == "dictcomp" and len(sp_[2]) == 2:
+                body, gen = sp_[2]
+                src, conds = gen[1][0], gen[1][1][1]
+                el = ("f", "elem", (src,), ())
+                k_, v_ = ("s", el, T.const(0)), ("s", el, T.const(1))
+                loaded = [x for x in T.subterms(src) if x[0] == "f" and x[1].endswith("load_from_h5_file")]
+                want_c = ("in", k_, ("f", "set", names, ()))
+                attach = src[0] == "f" and src[1] == "method:items" and src[2][0][0] == "f" and src[2][0][1] == "setitem" and src[2][0][2][1] == T.K("sample_history")
+                okh = body == ("t", (k_, v_)) and conds == (want_c,) and len(loaded) >= 1 and (attach or not attach_needed)
+                if conds != (want_c,):
+                    whyh = f"the loaded entries are filtered by {[T.show(c)[:100] for c in conds]}, not by membership in the {len(names)} dataclass fields: series are dropped or rejected"
+        ctx.decide(okh, "C13.history", f"{HC.name}.load", loc_of(ldc, newh[0].node if newh else None),
+                   "every stored entry that is a field of the history (all series, and the re-attached stored populations) is handed to the constructor unchanged",
+                   whyh, disc=f"rebuild|{HC.name}")
     cls_calls = [n for n in walk_no_nested(ld.node) if isinstance(n, ast.Call) and isinstance(n.func, ast.Attribute) and n.func.attr == "load" and isinstance(n.func.value, ast.Name)]
     saver = [n for n in walk_no_nested(sv.node) if isinstance(n, ast.Call) and isinstance(n.func, ast.Attribute) and n.func.attr == "save" and isinstance(n.func.value, ast.Name) and n.func.value.id == "samples"]
     ctx.decide(bool(cls_calls) and cls_calls[0].func.value.id == "SMCSamples" and bool(saver), "C13.history", f"{sv.ident}/{ld.ident}", loc_of(ld),
@@ -321,6 +404,23 @@ def run(ctx):
                f"class attribute {sorted(aw)} and config group {sorted(gw)} agree between save and load",
                f"save writes attrs {sorted(aw)} / group {sorted(gw)}, load reads attrs {sorted(ar)} / group {sorted(gr)}", disc="base")
 
+    # dataflow of the base save/load: fitted state goes into / comes out of the group that holds the config
+    evs = Evaluator(repo, max_depth=0)
+    evs.run(bs, TB)
+    grp_w = [e.args[0] for e in evs.events if e.callee.endswith("recursively_save_to_h5_file") and e.func is bs]
+    st_w = [e for e in evs.events if e.func is bs and e.callee.endswith("_save_state") and not e.conds]
+    okw = len(grp_w) == 1 and len(st_w) == 1 and st_w[0].args[-1] == grp_w[0] and (SELF in st_w[0].args or st_w[0].receiver == SELF)
+    ctx.decide(okw, "C13.transform", bs.ident, loc_of(bs), "save stores the fitted state (_save_state) in the group that holds the configuration",
+               "save does not call _save_state on the group it wrote the configuration to: fitted means/scales are lost", disc="base|save-state")
+    evl = Evaluator(repo, max_depth=0)
+    rl = T.strip_raise(evl.run(bl, TB))
+    grp_r = [e.args[0] for e in evl.events if e.callee.endswith("load_from_h5_file") and e.func is bl]
+    objs = [e for e in evl.events if e.func is bl and (e.callee.startswith("new:") or e.callee.startswith("call:")) and [k for k, _ in e.kwargs] == ["**"]]
+    st_r = [e for e in evl.events if e.func is bl and e.callee.endswith("_load_state") and not e.conds]
+    okr = len(grp_r) == 1 and len(objs) == 1 and len(st_r) == 1 and st_r[0].args[-1] == grp_r[0] and objs[0].result in st_r[0].args and rl == objs[0].result
+    ctx.decide(okr, "C13.transform", bl.ident, loc_of(bl), "load builds the transform from the stored configuration, restores its fitted state from the same group and returns it",
+               "load does not restore the fitted state (_load_state) of the object it returns from the group it read the configuration from", disc="base|load-state")
+
     # (8) flows
     loads = {}
     for ident in ("aspire.flows.torch.flows:BaseTorchFlow", "aspire.flows.jax.flows:FlowJax"):
@@ -340,6 +440,7 @@ def run(ctx):
                 if reader and isinstance(n, ast.Subscript) and isinstance(n.slice, ast.Constant) and isinstance(n.slice.value, str) and isinstance(n.value, ast.Name) and "grp" in n.value.id:
                     out.add(n.slice.value)
             return out
+        flow_dataflow(ctx, repo, c, sv, ld)
         wn, rn = names(sv, False), names(ld, True)
         ctx.decide(wn == rn and len(wn) >= 3, "C13.flow", f"{c.ident}", loc_of(ld), f"groups written {sorted(wn)} == groups read",
                    f"save writes groups {sorted(wn)}, load reads {sorted(rn)}", disc="groups")
@@ -422,12 +523,20 @@ MUTANTS = [
     M("samples codec key renamed", _U, "\"samples_type\": type(samples).__name__,", "\"type\": type(samples).__name__,", "C13.codec"),
     M("dtype codec key renamed", _U, "\"dtype\": _dtype_to_name(dtype),", "\"name\": _dtype_to_name(dtype),", "C13.codec"),
     M("from_dict passes derived fields on", _S, "dictionary = {k: v for k, v in dictionary.items() if k in init_names}\n", "", "C13.dict"),
+    M("history rebuilt from the non-field entries", _H, "k: v for k, v in dictionary.items() if k in field_names", "k: v for k, v in dictionary.items() if k not in field_names", "C13.history", within="SMCHistory.load"),
     M("history template differs", _H, "samples.save(h5_file, path=f\"{path}__sample_history/{i}\")", "samples.save(h5_file, path=f\"{path}/sample_history/{i}\")", "C13.history"),
     M("history length key differs", _H, "dictionary[\"__len_sample_history\"] = len(sample_history)", "dictionary[\"__n_sample_history\"] = len(sample_history)", "C13.history"),
+    M("transform load skips the fitted state", _T, "obj = cls(**config)\n        obj._load_state(grp)\n        return obj", "obj = cls(**config)\n        return obj", "C13.transform"),
+    M("transform save skips the fitted state", _T, "# store any fitted arrays\n        self._save_state(grp)", "# store any fitted arrays", "C13.transform"),
     M("composite config drops eps", _T, "\"eps\": self.eps,\n            \"device\": self.device,", "\"device\": self.device,", "C13.transform"),
     M("periodic config key not a parameter", _T, "\"lower\": self.lower.tolist(),\n            \"upper\": self.upper.tolist(),\n        }\n\n\nclass BoundedTransform", "\"lower\": self.lower.tolist(),\n            \"high\": self.upper.tolist(),\n        }\n\n\nclass BoundedTransform", "C13.transform"),
     M("affine state dataset renamed", _T, "h5_file.create_dataset(\"std\", data=self._std)", "h5_file.create_dataset(\"scale\", data=self._std)", "C13.transform"),
     M("flow transform keeps periodic key", _T, "cfg.pop(\n            \"periodic_parameters\", None\n        )  # Remove periodic_parameters from config", "pass", "C13.transform"),
+    M("torch load never installs the weights", _TF, "obj._flow.load_state_dict(weights)\n", "", "C13.flow"),
+    M("torch save skips the data transform", _TF, "if data_transform is not None:\n            data_transform.save(flow_grp, \"data_transform\")", "if data_transform is None:\n            data_transform.save(flow_grp, \"data_transform\")", "C13.flow"),
+    M("torch load ignores a stored data transform", _TF, "if \"data_transform\" in flow_grp:", "if \"data_transform\" not in flow_grp:", "C13.flow"),
+    M("jax load keeps the template weights", "src/aspire/flows/jax/flows.py", "obj._flow = eqx.combine(static, arrays)", "obj._flow = eqx.combine(static, arrays_template)", "C13.flow"),
+    M("jax save skips the data transform", "src/aspire/flows/jax/flows.py", "if data_transform is not None:\n            data_transform.save(grp, \"data_transform\")", "if data_transform is None:\n            data_transform.save(grp, \"data_transform\")", "C13.flow"),
     M("torch flow weights group renamed", _TF, "weights_grp = flow_grp.create_group(\"weights\")", "weights_grp = flow_grp.create_group(\"state\")", "C13.flow"),
     M("torch load passes kwargs as a keyword", _TF, "kwargs = config.pop(\"kwargs\", None) or {}\n        config.update(kwargs)\n", "", "C13.flow"),
     M("config lacks dtype", _A, "\"dtype\": _dtype_to_name(self.dtype),\n", "", "C13.config"),
